@@ -356,7 +356,7 @@ def body(ctx):
         return far, exact
 
     # ---------------------------------------------------------------- points_inside_polygon
-    nq = ctx.scale(1200, 2500)            # polygons also evaluated exactly (Rat model + specification)
+    nq = ctx.scale(2000, 5000)            # polygons also evaluated exactly (Rat model + specification)
     state = {"n": 0}
 
     def run_case(fam, poly, closed, pts, kinds, atol, mode, allow_invariance=True):
@@ -443,7 +443,7 @@ def body(ctx):
                 run_case("corpus:" + f.stem, poly + [poly[0]], True, pts, ["corpus"] * len(pts), ATOL, "default",
                          allow_invariance=False)
 
-    npoly = ctx.scale(1200, 12000)
+    npoly = ctx.scale(2000, 40000)
     nmax = ctx.scale(12, 40)
     npts = 60
     for _ip in range(npoly):
@@ -475,7 +475,7 @@ def body(ctx):
         ctx.count(("malformed", kind, repr(poly), repr(pts)), False, "malformed:" + kind)
 
     # ---------------------------------------------------------------- cells_inside_polygon
-    for ig in range(ctx.scale(150, 1200)):
+    for ig in range(ctx.scale(250, 4000)):
         ncols, nrows = rng.randint(1, 12), rng.randint(1, 12)
         csz = rng.choice([1.0, 0.5, 2.0, 0.25, 0.1, 30.0, 1.0])
         xll = rng.choice([0.0, -3.0, 0.5, 100.0, 0.3]) * csz
